@@ -19,6 +19,8 @@ type c14TxnStore struct {
 	// whole: an atomic store - a commit one of whose operations the store rejects fails as a whole
 	// (Commit returns the error and no results) and applies nothing
 	whole bool
+	// refuse: beginning a transaction counts as a store call and can be the one that fails
+	refuse bool
 }
 
 type c14Op struct {
@@ -38,6 +40,9 @@ type c14Txn struct {
 }
 
 func (s c14TxnStore) Transaction(options keyvalue.TransactionOptions) (keyvalue.Transaction, error) {
+	if s.refuse && !s.faultLazy && s.fault() {
+		return nil, pErrInjected
+	}
 	s.mu.Lock()
 	return &c14Txn{s: s.pStore, mu: s.mu, whole: s.whole}, nil
 }
@@ -101,12 +106,15 @@ func VerifC14Faults() {
 	}
 	var fs hackpadfs.FS
 	var err error
-	if kind := verifChoice("store-kind", 3); kind == 2 {
+	if kind := verifChoice("store-kind", 4); kind == 3 {
+		verifTag("store", "transaction-store-refusing-to-begin")
+		fs, err = keyvalue.NewFS(c14TxnStore{store, new(sync.Mutex), false, true})
+	} else if kind == 2 {
 		verifTag("store", "atomic-transaction-store")
-		fs, err = keyvalue.NewFS(c14TxnStore{store, new(sync.Mutex), true})
+		fs, err = keyvalue.NewFS(c14TxnStore{store, new(sync.Mutex), true, false})
 	} else if kind == 1 {
 		verifTag("store", "transaction-store")
-		fs, err = keyvalue.NewFS(c14TxnStore{store, new(sync.Mutex), false})
+		fs, err = keyvalue.NewFS(c14TxnStore{store, new(sync.Mutex), false, false})
 	} else {
 		verifTag("store", "plain-store")
 		fs, err = keyvalue.NewFS(store)
@@ -188,12 +196,15 @@ func VerifC14Handle() {
 	}
 	var fs hackpadfs.FS
 	var err error
-	if kind := verifChoice("store-kind", 3); kind == 2 {
+	if kind := verifChoice("store-kind", 4); kind == 3 {
+		verifTag("store", "transaction-store-refusing-to-begin")
+		fs, err = keyvalue.NewFS(c14TxnStore{store, new(sync.Mutex), false, true})
+	} else if kind == 2 {
 		verifTag("store", "atomic-transaction-store")
-		fs, err = keyvalue.NewFS(c14TxnStore{store, new(sync.Mutex), true})
+		fs, err = keyvalue.NewFS(c14TxnStore{store, new(sync.Mutex), true, false})
 	} else if kind == 1 {
 		verifTag("store", "transaction-store")
-		fs, err = keyvalue.NewFS(c14TxnStore{store, new(sync.Mutex), false})
+		fs, err = keyvalue.NewFS(c14TxnStore{store, new(sync.Mutex), false, false})
 	} else {
 		verifTag("store", "plain-store")
 		fs, err = keyvalue.NewFS(store)
